@@ -30,7 +30,7 @@ ASSUMPTIONS = [
 
 MAXS = 2500
 _maxs = [MAXS]
-SLOPPY = ['xq + 1', '5', "'s'", '!yq', '(xq)', 'lbl%d:', 'q%d = 3', 'q%d = 3', "systemLog('s%d') && 0", "probe('z%d', 1) * 2 - 1", '-(1 + 2)', '0 + mathAbs(1)']
+SLOPPY = ['xq + 1', '5', "'s'", '!yq', '(xq)', 'lbl%d:', 'exprLbl%d:', 'next_expr%d:', 'jumpTo%d:', 'name%d:', 'q%d = 3', 'q%d = 3', "systemLog('s%d') && 0", "probe('z%d', 1) * 2 - 1", '-(1 + 2)', '0 + mathAbs(1)']
 
 
 def keyword_named_block(rnd):
@@ -49,6 +49,33 @@ def keyword_named_block(rnd):
     else:
         lines += ['function kwApply%d(%s, vv):' % (n, kw), '    return kwDouble%d(vv)' % n, 'endfunction', 'systemLog(kwApply%d(kwDouble%d, 21))' % (n, n)]
     return '\n'.join(lines) + '\n'
+
+
+CALLED_NAMES = ['f', 'i', '', 'fi', 'n', 'x', 'iff', 'a b', 'nul', 'tru', 'e', 'l', 's', 'fn', 'null ', 'If', 'expr', 'name']
+
+
+def called_name_statements(rnd):
+    """Model statements (a hand-built model: any string is a name) in which the ONLY use of an argument / a local is that it is called."""
+    nm = rnd.choice(CALLED_NAMES)
+    n = rnd.randint(0, 99)
+    V = lambda x: {'variable': x}  # noqa: E731
+    dbl = {'function': {'name': 'cnDouble%d' % n, 'args': ['nn'], 'statements': [{'return': {'expr': {'binary': {'op': '*', 'left': V('nn'), 'right': {'number': 2.0}}}}}]}}
+    form = rnd.choice(['arg', 'arg', 'local', 'unused'])
+    if form == 'arg':
+        other = 'vv' if nm != 'vv' else 'ww'
+        app = {'function': {'name': 'cnApply%d' % n, 'args': [nm, other][::rnd.choice([1, -1])], 'statements': [{'return': {'expr': {'function': {'name': nm, 'args': [V(other)]}}}}]}}
+        args = [V('cnDouble%d' % n), {'number': 21.0}]
+        if app['function']['args'][0] != nm:
+            args.reverse()
+    elif form == 'local':
+        app = {'function': {'name': 'cnApply%d' % n, 'args': ['vv'], 'statements': [{'expr': {'name': nm, 'expr': V('cnDouble%d' % n)}},
+                                                                                      {'return': {'expr': {'function': {'name': nm, 'args': [V('vv')]}}}}]}}
+        args = [{'number': 21.0}]
+    else:
+        app = {'function': {'name': 'cnApply%d' % n, 'args': [nm, 'vv'], 'statements': [{'return': {'expr': {'function': {'name': 'cnDouble%d' % n, 'args': [V('vv')]}}}}]}}
+        args = [V('cnDouble%d' % n), {'number': 21.0}]
+    call = {'expr': {'expr': {'function': {'name': 'systemLog', 'args': [{'function': {'name': 'cnApply%d' % n, 'args': args}}]}}}}
+    return [dbl, app, call]
 
 
 def deep_use_block(rnd):
@@ -448,6 +475,8 @@ def run_shard(ctx, spec):
     def mprop(seed, size):
         rnd = random.Random(seed)
         model = sloppy_model(rnd, size)
+        if rnd.random() < 0.2:
+            model['statements'][0:0] = called_name_statements(rnd)
         _maxs[0] = 300        # hand-built models may recurse without bound: keep the host stack shallow
         try:
             checked, kinds = check_model(model, {'n': 0.0, 'k': 0.0})
